@@ -2,7 +2,7 @@
    Model: SV.C13.Mst (solvor/mst.py over the C20 UnionFind model); specification: SV.C13.MstSpec. *)
 From Coq Require Import List ZArith.
 From SV Require Import C20.UFSpec C13.Mst C13.MstSpec C13.GraphLemmas C13.KruskalProofs.
-From SV Require Import C13.ForestCount C13.PrimProofs C13.MstSpecProofs C13.Greedy C13.KruskalMin C13.AgreeProofs.
+From SV Require Import C13.ForestCount C13.PrimProofs C13.MstSpecProofs C13.Greedy C13.KruskalMin C13.AgreeProofs C13.PrimMin.
 Import ListNotations.
 
 (* kruskal, all inputs the validators accept (n_nodes >= 1, end points in range), every allow_forest:
@@ -87,29 +87,35 @@ Theorem C13_greedy_min : forall n es acc out, greedy acc es out -> sortedw es ->
 Proof. exact greedy_min. Qed.
 Print Assumptions C13_greedy_min.
 
-(* prim, minimality and agreement: NOT proved (needs the cut property along prim's heap order: heap sortedness
-   invariant + exchange with a crossing edge of a minimum spanning tree).  Full statements kept here; covered by
-   the exhaustive spanning-tree oracle of the harness (<= 7 nodes) only. *)
-Definition C13_prim_min_full_statement : Prop :=
-  forall g start r t, prim_valid g start = true -> symmetricb g = true ->
-    prim g start = Done r -> r_solution r = Some t -> minimum (arcs g) t.
-Definition C13_agree_full_statement : Prop :=
-  forall g start r t n acc tot iters, prim_valid g start = true -> symmetricb g = true -> g <> [] ->
-    prim g start = Done r -> r_solution r = Some t ->
-    kruskal_valid n (arcs g) = true -> kruskal_core n (arcs g) = Some (acc, tot, iters) ->
-    r_objective r = Some tot.
+(* prim, minimality: on an undirected graph (symmetric adjacency dict) the returned tree has minimum total
+   weight among all spanning forests of the arc list (cut property along the heap order). *)
+Theorem C13_prim_min : forall g start r t, prim_valid g start = true -> symmetricb g = true ->
+  prim g start = Done r -> r_solution r = Some t -> minimum (arcs g) t.
+Proof. exact prim_min. Qed.
+Print Assumptions C13_prim_min.
 
-(* proved half of the agreement: prim's tree is a spanning forest of the arc list, hence (kruskal's minimality)
-   kruskal's objective on the same edges is <= prim's objective, which is the weight of prim's tree *)
-Theorem C13_agree_partial : forall g start r t n acc tot iters,
-  prim_valid g start = true -> g <> [] -> prim g start = Done r -> r_solution r = Some t ->
-  kruskal_valid n (arcs g) = true -> kruskal_core n (arcs g) = Some (acc, tot, iters) ->
-  (tot <= weight t)%Z /\ r_objective r = Some (weight t).
-Proof. exact kruskal_le_prim. Qed.
-Print Assumptions C13_agree_partial.
-
-Theorem C13_prim_min_partial : forall g start r t, prim_valid g start = true -> g <> [] ->
+(* what a returned solution is, structurally (no symmetry needed) *)
+Theorem C13_prim_solution : forall g start r t, prim_valid g start = true -> g <> [] ->
   prim g start = Done r -> r_solution r = Some t ->
   r_status r = OPTIMAL /\ r_objective r = Some (weight t) /\ spanning_forest (arcs g) t.
 Proof. exact prim_solution_spanning. Qed.
-Print Assumptions C13_prim_min_partial.
+Print Assumptions C13_prim_solution.
+
+(* kruskal and prim agree: the same undirected graph given as an edge list (same edge set as the arcs of the
+   symmetric adjacency dict) - whenever prim returns a tree, kruskal's total weight equals prim's objective *)
+Theorem C13_agree : forall g start r t n edges acc tot iters,
+  prim_valid g start = true -> symmetricb g = true -> g <> [] ->
+  prim g start = Done r -> r_solution r = Some t ->
+  incl edges (arcs g) -> incl (arcs g) edges ->
+  kruskal_valid n edges = true -> kruskal_core n edges = Some (acc, tot, iters) ->
+  r_objective r = Some tot /\ tot = weight acc /\ tot = weight t.
+Proof. exact agree. Qed.
+Print Assumptions C13_agree.
+
+Example C13_agree_nonvacuous :
+  let g := [(0, [(1,4%Z); (2,3%Z)]); (1, [(0,4%Z); (2,2%Z); (3,5%Z)]);
+            (2, [(0,3%Z); (1,2%Z); (3,6%Z)]); (3, [(1,5%Z); (2,6%Z)])] in
+  prim_valid g None = true /\ symmetricb g = true /\ kruskal_valid 4 (arcs g) = true /\
+  (exists r t, prim g None = Done r /\ r_solution r = Some t /\ r_objective r = Some 10%Z) /\
+  (exists acc it, kruskal_core 4 (arcs g) = Some (acc, 10%Z, it)).
+Proof. vm_compute. repeat split; repeat eexists. Qed.
